@@ -39,13 +39,13 @@ CHECKS = {
         note='Collections hold mutually independent packages; their iteration order is not controlled (per-lexicon comparison only).',
         ref='3/C07'),
     'C04': dict(
-        technique='membership invariant on every entity object the observation walk touches + differential non-interference monitor between three real databases (insiders / + outsiders / outsiders removed), classified by the reference model',
-        text='Runtime monitoring: for 15 selection/expand settings over a universe of related lexicons with colliding identifiers, the full public-API observation of Wordnet(S, expand=E) is taken in a database holding only S, its expand set and needed bases, again after every other lexicon (other versions, unselected extensions of members of S, unrelated lexicons sharing ids/forms/ILIs) was added, and again after they were removed; the three observations must be identical and every returned entity must belong to S; the unrestricted default mode is compared with the family-scoped view of the model on the full database. Held on K universes.',
+        technique='membership invariant on every entity object the observation walk touches + differential non-interference monitor between real databases (insiders / + outsiders / outsiders removed / outsiders installed first), form and identifier look-ups included, classified by the reference model',
+        text='Runtime monitoring: for 15 selection/expand settings over a universe of related lexicons with colliding identifiers, the full public-API observation of Wordnet(S, expand=E) is taken in a database holding only S, its expand set and needed bases, again after every other lexicon (other versions, unselected extensions of members of S, unrelated lexicons sharing ids/forms/ILIs) was added, and again after they were removed, and in a fourth database where the outsiders were installed before and between the insiders; the observations (enumeration, navigation, look-ups by identifier, ILI and written form) must be identical and every returned entity must belong to S; the unrestricted default mode is compared with the family-scoped view of the model on the full database. Held on K universes.',
         note='Which extensions/dependencies of a lexicon are installed is dependency bookkeeping (C05), masked here. Known finding: tags/pronunciations have no owner column.',
         ref='3/C04'),
     'C05': dict(
         technique='history monitor: reference model of the installed set + structural audit of the SQLite file after every operation + observation vs model + second real execution (fresh database) at the end',
-        text='Runtime monitoring over random add/remove/ILI histories on a universe of related lexicons: after every operation the installed set, dependency links and a structural audit (foreign keys, ownership, dangling references, link columns) are checked, observations of every family are compared with the model every few operations, every removed lexicon is added again, and the final database is compared with a fresh one built from just the installed lexicons. Held on K histories.',
+        text='Runtime monitoring over random add/remove/ILI histories (with adds that fail half-way, reconnects and unobserved steps) on a universe of related lexicons: after every operation the installed set, dependency links and a structural audit (foreign keys, ownership, dangling references, link columns) are checked, observations of every family are compared with the model every few operations, every removed lexicon is added again, and the final database is compared with a fresh one built from just the installed lexicons. Held on K histories.',
         note='ILI inventory and cross-lexicon order excluded as the statement says. Known finding: extension tags/pronunciations survive removal.',
         ref='3/C05'),
     'C08': dict(
